@@ -126,6 +126,7 @@ theorem step_trk_other (s : Sys F) (e : Ev) (h : ∀ now pkt, e ≠ .client now 
   | setCfg cfg => rfl
   | crit d => rfl
   | failNext cid => rfl
+  | failAfter cid kfa => rfl
   | failBind cid => rfl
   | stamp idx weak ld ccb cct => rfl
   | syncTimeout => rfl
